@@ -777,6 +777,18 @@ pub fn regime_tags(spec: &DistSpec) -> Vec<String> {
             }
         }
         Family::Poisson if p.len() == 1 && p[0] >= 1.2e19 => t.push("poisson:lambda>=1.2e19".into()),
+        Family::Beta if p.len() == 2 && spec.scalar == Scalar::F32 && p[0].min(p[1]) <= 0.06 && p[0].max(p[1]) >= 500.0 => {
+            t.push("beta32:min<=0.06&max>=500".into())
+        }
+        Family::Triangular if p.len() == 3 => {
+            // the sampler computes min + sqrt(..) / max - sqrt(..): where the result is small
+            // against |min| or |max| the sum cancels
+            let big = p[0].abs().max(p[1].abs());
+            let small = p[0].abs().min(p[1].abs()).min(p[2].abs());
+            if big >= 4.0 * small && small > 0.0 {
+                t.push("triangular:shifted".into());
+            }
+        }
         Family::Zipf if p.len() == 2 && spec.scalar == Scalar::F32 && (p[1] - 1.0).abs() <= 0.02 && p[1] != 1.0 && p[0] >= 1e4 => {
             t.push("zipf32:|s-1|<=0.02&n>=1e4".into())
         }
